@@ -24,6 +24,7 @@ Theorem site_monotone : forall m1 m2, weaker m1 m2 = true ->
   (forall v r, iter_items m1 v = Ok r -> iter_items m2 v = Ok r) /\                 (* the iteration check of SFor *)
   (forall op x y r, bin_check m1 op x y = Ok r -> bin_check m2 op x y = Ok r) /\    (* `~` *)
   (forall op a b r, do_cmp m1 op a b = Ok r -> do_cmp m2 op a b = Ok r) /\
+  (forall v r, str_input m1 v = Ok r -> str_input m2 v = Ok r) /\                   (* string arguments of filters *)
   (forall esc f v args r, do_filter m1 esc f v args = Ok r -> do_filter m2 esc f v args = Ok r).
   (* do_test does not take the mode at all *)
 Proof.
@@ -35,6 +36,7 @@ Proof.
   - eapply iter_items_mono; eauto.
   - eapply bin_check_mono; eauto.
   - eapply do_cmp_mono; eauto.
+  - eapply str_input_mono; eauto.
   - eapply do_filter_mono; eauto.
 Qed.
 
